@@ -367,12 +367,14 @@ class Gen:
         if r < self.cfg["p_law"]:
             law = rng.choice(["assoc", "assoc", "identity", "inverse", "inverse", "pow"])
             if law == "pow":
+                # matrices only: the float discrepancy between t**k and the k-fold product is ~ k*n*eps*cond(t)**|k|,
+                # so cond(t)**|k| <= 1e8 keeps the projective defect below 1e-14, far under the tolerance
                 t = self.pick_T()
-                k = rng.choice([-3, -2, -1, 0, 1, 2, 3, 4])
-                mk = _mpow(self.T[t]["m"], k)
-                if mk is not None and cond_ok(mk):
-                    return {"i": i, "op": "law_pow", "t": t, "k": k}
-                return {"i": i, "op": "law_pow", "t": t, "k": rng.choice([0, 1, -1])}
+                for _ in range(4):
+                    k = rng.choice(POW_EXPONENTS)
+                    if pow_ok(self.T[t]["m"], k):
+                        return {"i": i, "op": "law_pow", "t": t, "k": k}
+                return {"i": i, "op": "law_pow", "t": t, "k": rng.choice([0, 1, -1, 2])}
             if law == "identity":
                 return {"i": i, "op": "law_identity", "x": rng.choice(sorted(self.X))}
             t = self.pick_T()
@@ -417,8 +419,8 @@ class Gen:
                 return {"i": i, "op": "inverse", "t": t, "to": u}
         if r < 0.94:
             t = self.pick_T()
-            k = rng.choice([-3, -2, -1, 0, 1, 2, 3, 4])
-            m = _mpow(self.T[t]["m"], k)
+            k = rng.choice(POW_EXPONENTS if rng.random() < 0.4 else [-3, -2, -1, 0, 1, 2, 3, 4])
+            m = _mpow(self.T[t]["m"], k) if pow_ok(self.T[t]["m"], k) else None
             if m is not None and cond_ok(m):
                 u = self.slot()
                 self.T[u] = {"m": m, "fshape": self.T[t]["fshape"]}
@@ -437,6 +439,21 @@ class Gen:
         for i in range(self.cfg["n_steps"]):
             self.steps.append(self.step(i))
         return {"version": 1, "property": "C06", "cfg": self.cfg, "recipes": self.recipes, "steps": self.steps}
+
+
+POW_EXPONENTS = [-13, -12, -10, -9, -8, -7, -6, -5, -4, -3, -2, -1, 0, 1, 2, 3, 4, 5, 6, 7, 8, 9, 10, 11, 12, 13, 14, 16,
+                 17, 20, 24]
+
+
+def pow_ok(m, k) -> bool:
+    try:
+        c = float(np.max(np.linalg.cond(m)))
+    except np.linalg.LinAlgError:
+        return False
+    # Tensor.__pow__ is one un-optimised einsum over |k| operands: its cost is n**(|k|+1) per matrix
+    n = m.shape[-1]
+    cost = n ** (abs(k) + 1) * max(int(np.prod(m.shape[:-2])), 1)
+    return math.isfinite(c) and abs(k) * math.log10(max(c, 1.0)) <= 8.0 and cost <= 3_000_000
 
 
 def _mpow(m, k):
